@@ -6,6 +6,7 @@ import Spq.Drv.Fft
 import Spq.Drv.Reim4
 import Spq.Drv.Module
 import Spq.Drv.Cache
+import Spq.Drv.Cover
 /- Model driver: one operation per line in, one canonical result line out. -/
 open Spq.Drv
 
@@ -22,6 +23,7 @@ def dispatch (toks : List String) : String :=
     | "r4" :: rest => handleR4 rest
     | "md" :: rest => handleMd rest
     | "ca" :: rest => handleCa rest
+    | "cv" :: rest => handleCv rest
     | _ => none
   r.getD "bad-op"
 
